@@ -335,7 +335,7 @@ func loadPlan(b []byte) (any, error) {
 
 func (p *Plan) label() string {
 	o := p.Opt
-	return fmt.Sprintf("q=%s,rs=%d,mx=%d,rb=%d,wb=%d,ap=%v,r2=%v,flt=%d", o.Queue, o.RingScale, o.Multiplex, o.ReadBuf, o.WriteBuf, o.AlwaysPipelining, o.RESP2, len(p.Faults))
+	return fmt.Sprintf("q=%s,rs=%d,mx=%d,rb=%d,wb=%d,ap=%v,r2=%v,lt=%d,retry=%v,flt=%d", o.Queue, o.RingScale, o.Multiplex, o.ReadBuf, o.WriteBuf, o.AlwaysPipelining, o.RESP2, o.ConnLifetimeMs, !o.DisableRetry, len(p.Faults))
 }
 
 // ---- building a simulation from a plan ----
